@@ -110,13 +110,16 @@ fn obj_pkt(tsi: u64, toi: u128, fti: bool, sbn: u32, esi: u32) -> Vec<u8> {
     obj_pkt_b(tsi, toi, fti, sbn, esi, false)
 }
 fn obj_pkt_b(tsi: u64, toi: u128, fti: bool, sbn: u32, esi: u32, b: bool) -> Vec<u8> {
+    obj_pkt_len(tsi, toi, fti, sbn, esi, b, E)
+}
+fn obj_pkt_len(tsi: u64, toi: u128, fti: bool, sbn: u32, esi: u32, b: bool, plen: usize) -> Vec<u8> {
     let mut sp = rfc::Spec::minimal(rfc::FEC_NOCODE, tsi, toi);
     sp.b = b;
     if fti {
         sp.exts.push(rfc::fti_nocode(OBJ_LEN, E as u16, 10));
     }
     sp.payload_id = rfc::pid(rfc::FEC_NOCODE, sbn, esi, 0, 8);
-    sp.payload = vec![(esi & 0xFF) as u8; E];
+    sp.payload = vec![(esi & 0xFF) as u8; plen];
     rfc::encode(&sp)
 }
 
@@ -349,7 +352,7 @@ pub fn run_seq(c: &Cfg, seq: &[Ev], repeat: usize) -> (Option<(String, String)>,
 }
 
 /// per-object bound: one TOI kept undecodable / unwritable while n packets arrive
-pub fn cache_sweep(c: &Cfg, scenario: u8, n: usize) -> Option<(String, String)> {
+pub fn cache_sweep(c: &Cfg, scenario: u8, n: usize, plen: usize) -> Option<(String, String)> {
     flute::verif::clock_reset(0);
     alloc::start();
     let name = ["no-fdt-no-fti", "fdt-only-oti-fdt-withheld", "inband-fti-no-fdt", "fdt-present-block0-missing"][scenario as usize];
@@ -363,7 +366,9 @@ pub fn cache_sweep(c: &Cfg, scenario: u8, n: usize) -> Option<(String, String)> 
         // per-object bookkeeping (object receiver, block decoders, strings) + one packet, plus the
         // per-packet bookkeeping of the cache (parsed header kept next to the bytes): 256 bytes for
         // each packet that fits in the configured size
-        let slack: isize = 6 * 1024 + ((c.cache / (E + 16) + 1) * 256) as isize;
+        // (the configured size counts datagram bytes: with short payloads more packets fit)
+        let pkt_len = alloc::untracked(|| obj_pkt_len(TSI, 1, scenario == 2, 0, 0, false, plen).len());
+        let slack: isize = 6 * 1024 + ((c.cache / pkt_len + 1) * 256) as isize;
         let mut crossed = false;
         for i in 0..n {
             let (fti, sbn, esi) = match scenario {
@@ -371,7 +376,7 @@ pub fn cache_sweep(c: &Cfg, scenario: u8, n: usize) -> Option<(String, String)> 
                 2 => (true, (i / 10) as u32, (i % 10) as u32),
                 _ => (false, 1 + (i / 10) as u32, (i % 10) as u32), // block 0 never arrives
             };
-            let p = alloc::untracked(|| obj_pkt(TSI, 1, fti, sbn, esi));
+            let p = alloc::untracked(|| obj_pkt_len(TSI, 1, fti, sbn, esi, false, plen));
             let _ = rx.rx.push(&endpoint(), &p, rx.now);
             alloc::untracked(|| drop(p));
             let held = alloc::live() - base;
@@ -385,8 +390,8 @@ pub fn cache_sweep(c: &Cfg, scenario: u8, n: usize) -> Option<(String, String)> 
             let bound = c.cache as isize + two_blocks + slack;
             if held > bound {
                 return Some((
-                    format!("C17/per-object-memory-exceeds-cache-limit/{}", name),
-                    format!("{}: after {} packets of {} bytes for one object the receiver holds {} bytes; object_max_cache_size = {} (+ two blocks of {} bytes + {} bytes of bookkeeping allowed); nb_objects_error = {}", name, i + 1, E, held, c.cache, two_blocks / 2, slack, errs),
+                    format!("C17/per-object-memory-exceeds-cache-limit/{}{}", name, if plen == E { "" } else { "/short-payload" }),
+                    format!("{}: after {} packets with {}-byte payloads ({} bytes each) for one object the receiver holds {} bytes; object_max_cache_size = {} (+ two blocks of {} bytes + {} bytes of bookkeeping allowed); nb_objects_error = {}", name, i + 1, plen, pkt_len, held, c.cache, two_blocks / 2, slack, errs),
                 ));
             }
         }
@@ -403,7 +408,7 @@ pub fn cache_sweep(c: &Cfg, scenario: u8, n: usize) -> Option<(String, String)> 
 pub fn replay(v: &serde_json::Value) -> Vec<Violation> {
     let c: Cfg = serde_json::from_value(v["case"]["cfg"].clone()).expect("cfg");
     let r = if v["check"] == "cache" {
-        cache_sweep(&c, v["case"]["scenario"].as_u64().unwrap() as u8, v["case"]["n"].as_u64().unwrap() as usize)
+        cache_sweep(&c, v["case"]["scenario"].as_u64().unwrap() as u8, v["case"]["n"].as_u64().unwrap() as usize, v["case"]["payload"].as_u64().map(|x| x as usize).unwrap_or(E))
     } else {
         let seq: Vec<Ev> = serde_json::from_value(v["case"]["seq"].clone()).expect("seq");
         run_seq(&c, &seq, v["case"]["repeat"].as_u64().unwrap_or(1) as usize).0
@@ -511,14 +516,19 @@ pub fn run(thorough: bool) -> i32 {
     let mut sweeps = Vec::new();
     for ci in 0..cfgs.len() {
         for sc in 0..4u8 {
-            sweeps.push((ci, sc));
+            sweeps.push((ci, sc, E));
+        }
+        // datagrams with empty and one-byte payloads (what a sender emits for an empty object): the limit is
+        // on the bytes buffered, not on the symbol bytes
+        for plen in [0usize, 1] {
+            sweeps.push((ci, 0, plen));
         }
     }
     let n_sweep_pkts = if thorough { 2000 } else { 800 };
-    let sres = par_map(&sweeps, |_, (ci, sc)| cache_sweep(&cfgs[*ci], *sc, n_sweep_pkts));
-    for ((ci, sc), r) in sweeps.iter().zip(sres) {
+    let sres = par_map(&sweeps, |_, (ci, sc, pl)| cache_sweep(&cfgs[*ci], *sc, n_sweep_pkts, *pl));
+    for ((ci, sc, pl), r) in sweeps.iter().zip(sres) {
         if let Some((key, what)) = r {
-            rep.add(Violation { key, what, case: json!({"check": "cache", "case": {"cfg": cfgs[*ci], "scenario": sc, "n": n_sweep_pkts}}) });
+            rep.add(Violation { key, what, case: json!({"check": "cache", "case": {"cfg": cfgs[*ci], "scenario": sc, "n": n_sweep_pkts, "payload": pl}}) });
         }
     }
     let total = n_depth + items.len() + sweeps.len();
